@@ -24,13 +24,18 @@ def subslice (len cap low : Int) (high max : Option Int) : Option (Int × Int ×
   if low < 0 || high < low || max < high || high > cap || max > cap then none
   else some (high - low, max - low, low)
 
-/-- `$substring(str, low, high)` (prelude.js:188-193); the compiler passes `str.length` style
-    defaults itself: `s[lo:]` → `$substring(s, lo)` where `high === undefined` makes every comparison false.
+/-- `$substring(str, low, high)` (prelude.js:188-196). `s[lo:]` is emitted as `$substring(s, lo)`:
+    `if (high === undefined) { high = str.length; }` (repair C08-substring-open-high).
     Result: length of the substring. -/
 def substring (len low : Int) (high : Option Int) : Option Int :=
+  let high := high.getD len
+  if low < 0 || high < low || high > len then none else some (high - low)
+
+/-- `$substring` before the repair: with `high === undefined` every comparison against it was false and
+    `str.substring(low)` clamped `low` to the length. -/
+def substringOld (len low : Int) (high : Option Int) : Option Int :=
   match high with
   | some high => if low < 0 || high < low || high > len then none else some (high - low)
-  -- `undefined < low`, `undefined > len` are false; `str.substring(low)` clamps low to the length
   | none => if low < 0 then none else some (if low > len then 0 else len - low)
 
 /-- `$makeSlice(typ, length, capacity = length)` (types.js:675-691) -/
@@ -64,9 +69,15 @@ def remInt (x y : Int) : Option Int :=
 inductive ChanState | nil | open_ | closed
   deriving DecidableEq, Repr
 
-/-- `$close` (goroutines.js:283-302): only `chan.$closed` is tested; the nil channel `$chanNil`
-    (types.js:568-569) is an ordinary object with `$closed === false`, so closing it "succeeds". -/
+/-- `$close` (goroutines.js:283-305): `chan === $chanNil` → "close of nil channel" (repair 878216e),
+    `chan.$closed` → "close of closed channel". -/
 def closeChan : ChanState → Option Unit
+  | .nil => none
+  | .closed => none
+  | .open_ => some ()
+
+/-- `$close` before the repair: only `chan.$closed` was tested and `$chanNil.$closed` was false. -/
+def closeChanOld : ChanState → Option Unit
   | .closed => none
   | _ => some ()
 
